@@ -787,11 +787,32 @@ def _param_walks(mod, inf, callee, param, depth=0, seen=None):
   return out
 
 
+def _def_qual(mod, fn):
+  outer = _qualname(mod, fn)
+  return fn.name if outer == "<module>" else f"{outer}.{fn.name}"
+
+
 def _scan_module(ctx, rel):
+  return _scan_module_full(ctx, rel)[0]
+
+
+def _scan_module_full(ctx, rel):
+  """(sites, callers): callers maps the qualified name of a function of the
+  module to the qualified names of the functions that call it through a call
+  the set inference resolves (module-level name, `self.m()`)."""
+  return ctx.memo(("c04-scan", rel), lambda: _scan_module_uncached(ctx, rel))
+
+
+def _scan_module_uncached(ctx, rel):
   mod = get_module(ctx, rel)
   inf = _SetInference(mod)
   sites = []
+  callers = {}
   for node in ast.walk(mod.tree):
+    if isinstance(node, ast.Call):
+      res0 = inf.resolve_callee(node, node)
+      if res0 is not None:
+        callers.setdefault(_def_qual(mod, res0[0]), set()).add(_qualname(mod, node))
     for kind, expr in _consumers(node):
       if not inf.is_set(expr, node):
         continue
@@ -818,7 +839,7 @@ def _scan_module(ctx, rel):
               "kind": f"call:{callee.name}({param})->{walks[0][0]}",
               "line": getattr(node, "lineno", 0), "auto": None})
   sites.sort(key=lambda s: (s["line"], s["kind"], s["expr"]))
-  return sites
+  return sites, callers
 
 
 _OUTPUT_PATH_DIRS = ("pytype/pytd/", "pytype/errors/", "pytype/imports/")
@@ -1010,12 +1031,47 @@ _SAFE_WHOLE_PACKAGE = {
 }
 
 
+def _is_private_helper(qual):
+  last = qual.rsplit(".", 1)[-1]
+  return last.startswith("_") and not (last.startswith("__") and last.endswith("__"))
+
+
+def _triage_owner(rel, qual, expr, kind, callers, table, budget, depth=0):
+  """Triage key that covers a walk of `expr` sitting in the private helper
+  `qual`: the entry of the one function that (through private helpers only,
+  two levels) is the only caller of the helper inside the module.  None when
+  there is no such unique owner with budget left."""
+  if depth > 2 or not _is_private_helper(qual):
+    return None
+  cs = callers.get(qual)
+  if not cs:
+    return None
+  owners = set()
+  for c in sorted(cs):
+    if c == qual:
+      continue
+    key = (rel, c, expr)
+    if key in table:
+      owners.add(key)
+      continue
+    up = _triage_owner(rel, c, expr, kind, callers, table, budget, depth + 1)
+    if up is None:
+      return None     # some caller is not covered by a triage entry
+    owners.add(up)
+  if len(owners) != 1:
+    return None
+  key = owners.pop()
+  return key if budget[key][kind] > 0 else None
+
+
 def _run_set_rule(ctx, files, table):
   import collections
   budget = {k: collections.Counter(v[0]) for k, v in table.items()}
   seen = set()
   for rel in files:
-    for site in _scan_module(ctx, rel):
+    sites, callers = _scan_module_full(ctx, rel)
+    pending = []
+    for site in sites:
       key = (rel, site["qual"], site["expr"])
       construct = (f"{rel.removeprefix('pytype/')}:{site['qual']}|"
                    f"{site['expr']}|{site['kind']}")
@@ -1027,6 +1083,19 @@ def _run_set_rule(ctx, files, table):
         budget[key][site["kind"]] -= 1
         seen.add(key)
         ctx.ok(construct, rel, site["line"], facts | {"triaged": table[key][1]})
+        continue
+      pending.append((site, construct, facts))
+    # walks left over: the triaged loop may have been moved, as it is, into a
+    # private helper of the triaged function (its own budget is then unused)
+    for site, construct, facts in pending:
+      owner = _triage_owner(rel, site["qual"], site["expr"], site["kind"],
+                            callers, table, budget)
+      if owner is not None:
+        budget[owner][site["kind"]] -= 1
+        seen.add(owner)
+        ctx.ok(construct, rel, site["line"],
+               facts | {"triaged": table[owner][1],
+                        "triaged_as": f"{owner[1]} (only caller of this private helper)"})
         continue
       ctx.bad(construct, rel, site["line"],
               f"`{site['expr']}` is definitely a set and is walked by an "
@@ -1050,12 +1119,30 @@ EXPLANATION = (
     "Signature and UnionType (fields read from the pytd schema) except the "
     "listed order-significant ones; R4.3 the error report is produced only "
     "through unique_sorted_errors over a (filename, line) sort; R4.4 the "
-    "msgpack encoder is deterministic, the gzip header is constant and the "
-    "dependency lists are sorted; R4.5 the printer sorts import lines and "
-    "TypeVar definitions; R4.6 every walk over a value that is definitely a "
+    "msgpack encoder is deterministic, the gzip header is constant, what "
+    "Serialize / SerializeAndSave hand to Encode / Save is the result of "
+    "serialize_ast.SerializeAst and the dependency lists given to "
+    "SerializableAst are sorted; R4.5 the printer sorts import lines, "
+    "import targets and "
+    "TypeVar definitions.  In R4.4/R4.5 `the value is X` is decided on the "
+    "values the expression can have, not on its spelling: a local name is "
+    "followed through its reaching definitions (plain assignments; "
+    "tuple-unpacking of a tuple display or of a call to a function of the "
+    "same module, then through the matching element of every returned "
+    "tuple), so `x = sorted(..); f(x)`, `f(sorted(..))` and `a, b = "
+    "_helper(..)` with `return sorted(..), sorted(..)` are the same; a name "
+    "whose object is changed in place (append/extend/sort/item store) after "
+    "a definition that reaches the use is not followed (a sorted(..) "
+    "definition changed in place afterwards is an ANALYSIS-ERROR); R4.6 every walk over a value that is definitely a "
     "set by an order-observing consumer is "
     "either provably order-insensitive or in a frozen, hand-triaged table "
-    "(quick: output-path modules; thorough: whole package).  The set "
+    "(quick: output-path modules; thorough: whole package); a triage entry "
+    "names the function the walk was read in and covers that function "
+    "together with the private helpers (leading underscore, at most two "
+    "levels) whose only callers inside the module are that function / "
+    "those helpers, so a triaged loop moved as it is into such a helper "
+    "is the same site, while the number of walks of each kind per entry "
+    "stays bounded by the entry.  The set "
     "inference is intra-procedural plus two module-local steps: the result "
     "of `d.keys()/d.items() <-|&^> x` is a set (dict-view set algebra, "
     "whatever x is); a call that resolves to a function of the same module "
@@ -1121,6 +1208,10 @@ ASSUMPTIONS = [
     "subclass in another module does not override the `self.m` that a "
     "module-local call resolves to",
     "test files, test_data and typeshed are outside the scope",
+    "a private (leading-underscore) function or method is called only from "
+    "its own module, through calls the analysis resolves (module-level name, "
+    "`self.m()`): R4.6 attributes a walk inside such a helper to the triaged "
+    "function that is its only caller",
     "R4.7b: standard-library calls and calls whose definition is not in the "
     "typegraph translation units (logging) have no effect on analysis "
     "results; std::set/std::map insertion is commutative",
@@ -1588,11 +1679,242 @@ def r4_3(ctx):
 
 # -- R4.4 ------------------------------------------------------------------------
 
+PICKLE = "pytype/imports/pickle_utils.py"
+SERIALIZE = "pytype/pytd/serialize_ast.py"
+
+_LIST_MUTATORS = {"append", "extend", "insert", "remove", "pop", "sort",
+                  "reverse", "clear", "__setitem__", "__delitem__", "__iadd__"}
+
+
+def _changed_in_place(unit):
+  """Names whose object `unit` changes in place: receiver of a mutator call,
+  item store / delete."""
+  out = set()
+  todo = [unit]
+  while todo:
+    n = todo.pop()
+    if isinstance(n, _FUNC + (ast.Lambda, ast.ClassDef)) and n is not unit:
+      continue
+    if isinstance(n, ast.Call) and isinstance(n.func, ast.Attribute) and \
+        isinstance(n.func.value, ast.Name) and n.func.attr in _LIST_MUTATORS:
+      out.add(n.func.value.id)
+    if isinstance(n, ast.Subscript) and isinstance(n.ctx, (ast.Store, ast.Del)) \
+        and isinstance(n.value, ast.Name):
+      out.add(n.value.id)
+    todo.extend(ast.iter_child_nodes(n))
+  return out
+
+
+def _reaching_mut(fn):
+  """Reaching definitions where an in-place change of a name's object is a
+  (non-killing) event of its own: facts (name, unit, "def" | "mut")."""
+  def gen(unit):
+    out = {(nm, unit, "def") for nm in stored_names(unit)}
+    out |= {(nm, unit, "mut") for nm in _changed_in_place(unit)}
+    return out
+
+  def kill(unit):
+    names = stored_names(unit)
+    if not names:
+      return None
+    return lambda fact: fact[0] in names
+  return flow.flow(fn, gen, kill, mode="may")
+
+
+def _value_sources(mod, fn, expr, stmt, depth=0):
+  """Expressions that `expr` (read in `stmt` of `fn`) evaluates to, following
+  local names through their reaching definitions: plain assignments, and
+  tuple-unpacking of a call to a function of the same module (then the
+  matching element of each returned tuple, resolved inside that function).
+  -> [(expression, function it belongs to)]; a name with no local definition,
+  or bound in another way, is returned as it is.  AnalysisError when the
+  value cannot be followed soundly."""
+  if depth > 5:
+    raise AnalysisError(f"{fn.name}: definition chain too deep")
+  if not isinstance(expr, ast.Name):
+    return [(expr, fn)]
+  rd = _reaching(fn)
+  st = _reaching_mut(fn).before.get(stmt)
+  facts = [f for f in (st or ()) if f[0] == expr.id]
+  defs = [f[1] for f in facts if f[2] == "def"]
+  if not defs:
+    return [(expr, fn)]
+  if any(f[2] == "mut" for f in facts):
+    # the object was changed in place after (one of) its definitions: what
+    # those definitions say about the value need not hold at the use
+    if any(isinstance(d, ast.Assign) and isinstance(d.value, ast.Call)
+           and dotted(d.value.func) == "sorted" for d in defs):
+      raise AnalysisError(f"{fn.name}: `{expr.id}` is sorted and then changed "
+                          "in place before its use")
+    return [(expr, fn)]
+  out = []
+  for d in defs:
+    if not (isinstance(d, ast.Assign) and len(d.targets) == 1):
+      return [(expr, fn)]
+    t = d.targets[0]
+    if isinstance(t, ast.Name):
+      out.extend(_value_sources(mod, fn, d.value, d, depth + 1))
+      continue
+    if isinstance(t, (ast.Tuple, ast.List)) and not any(
+        isinstance(e, ast.Starred) for e in t.elts):
+      pos = [i for i, e in enumerate(t.elts)
+             if isinstance(e, ast.Name) and e.id == expr.id]
+      if len(pos) != 1:
+        return [(expr, fn)]
+      i = pos[0]
+      v = d.value
+      if isinstance(v, (ast.Tuple, ast.List)) and len(v.elts) == len(t.elts) \
+          and not any(isinstance(e, ast.Starred) for e in v.elts):
+        out.extend(_value_sources(mod, fn, v.elts[i], d, depth + 1))
+        continue
+      callee = None
+      if isinstance(v, ast.Call) and isinstance(v.func, ast.Name) and \
+          v.func.id in mod.functions and not _defs_at(rd, d, v.func.id):
+        callee = mod.functions[v.func.id]
+      if callee is None:
+        return [(expr, fn)]
+      rets = [n for n in walk_no_nested(callee) if isinstance(n, ast.Return)]
+      if not rets or any(isinstance(n, (ast.Yield, ast.YieldFrom))
+                         for n in walk_no_nested(callee)):
+        raise AnalysisError(f"{callee.name}: not a plain function returning a tuple")
+      for r in rets:
+        rv = r.value
+        for rv, owner in _value_sources(mod, callee, rv, r, depth + 1) \
+            if isinstance(rv, ast.Name) else [(rv, callee)]:
+          if not (isinstance(rv, ast.Tuple) and len(rv.elts) == len(t.elts)
+                  and not any(isinstance(e, ast.Starred) for e in rv.elts)):
+            raise AnalysisError(
+                f"{callee.name}: returns `{src(rv) if rv is not None else None}`, "
+                f"not a {len(t.elts)}-tuple")
+          out.extend(_value_sources(mod, owner, rv.elts[i], r, depth + 1))
+      continue
+    return [(expr, fn)]
+  return out
+
+
+def _serialisation_instances(ctx):
+  """Encoder / gzip / pipeline / dependency-order obligations of the pickle path."""
+  mod = get_module(ctx, PICKLE)
+  # 1. the module-level encoder is deterministic
+  enc = mod.const("Encoder")
+  if not (isinstance(enc, ast.Call) and dotted(enc.func) == "msgspec.msgpack.Encoder"):
+    raise AnalysisError("pickle_utils.Encoder is not a msgspec.msgpack.Encoder(...) call")
+  order = kwarg(enc, "order")
+  val = order.value if isinstance(order, ast.Constant) else (
+      src(order) if order is not None else None)
+  ctx.check(val in ("deterministic", "sorted"), "Encoder:order", PICKLE, enc.lineno,
+            f"msgspec Encoder is built with order={val!r}; sets and dicts "
+            "(SerializableAst.dependencies holds set[str]) are then encoded in "
+            "hash order", {"order": val})
+  # 2. every encoding in the module goes through that encoder
+  stray = []
+  for c in calls_in(mod.tree):
+    d = dotted(c.func) or ""
+    if d in ("msgspec.msgpack.encode", "msgspec.json.encode", "msgspec.to_builtins") \
+        or (d.endswith(".Encoder") and c is not enc):
+      stray.append((d, c.lineno))
+  fn = mod.func("Encode")
+  rets = [n for n in ast.walk(fn) if isinstance(n, ast.Return)]
+  rv = []
+  for r in rets:
+    rv.extend(v for v, _ in _value_sources(mod, fn, r.value, r)) if r.value is not None \
+        else rv.append(None)
+  ok = (not stray and rv and all(
+      isinstance(v, ast.Call) and dotted(v.func) == "Encoder.encode" for v in rv))
+  ctx.check(ok, "Encode:uses-Encoder", PICKLE, fn.lineno,
+            "Encode must return Encoder.encode(obj) and no other msgspec "
+            f"encoder may be used in pickle_utils (stray={stray})",
+            {"returns": [src(v) for v in rv if v is not None], "stray": stray})
+  # 3. Save: what is written is Encode(obj); the gzip header is constant
+  fn = mod.func("Save")
+  writes = [c for c in calls_in(fn) if isinstance(c.func, ast.Attribute)
+            and c.func.attr == "write"]
+  if not writes:
+    raise AnalysisError("pickle_utils.Save: no .write(...) call")
+  wargs, ok = [], True
+  for c in writes:
+    vals = [v for v, _ in _value_sources(mod, fn, c.args[0], mod.enclosing_stmt(c))] \
+        if len(c.args) == 1 else [None]
+    wargs.extend(src(v) if v is not None else None for v in vals)
+    ok = ok and all(isinstance(v, ast.Call) and dotted(v.func) == "Encode" for v in vals)
+  ctx.check(ok, "Save:writes-Encode", PICKLE, fn.lineno,
+            f"Save must write Encode(obj); writes {wargs}", {"writes": wargs})
+  gz = [c for c in calls_in(fn) if (dotted(c.func) or "").endswith("GzipFile")]
+  if len(gz) != 1:
+    raise AnalysisError(f"pickle_utils.Save: expected one GzipFile call, found {len(gz)}")
+  g = gz[0]
+  if any(k.arg is None for k in g.keywords) or len(g.args) > 0:
+    raise AnalysisError("pickle_utils.Save: GzipFile called with positional/**kwargs")
+  mt = kwarg(g, "mtime")
+  mt_ok = isinstance(mt, ast.Constant) and isinstance(mt.value, (int, float)) \
+      and not isinstance(mt.value, bool)
+  ctx.check(mt_ok, "Save:gzip-mtime", PICKLE, g.lineno,
+            f"gzip.GzipFile(mtime={src(mt) if mt is not None else '<absent>'}): "
+            "the gzip header must carry a constant mtime (absent/None means "
+            "time.time())", {"mtime": src(mt) if mt is not None else None})
+  fnm = kwarg(g, "filename")
+  fn_ok = isinstance(fnm, ast.Constant) and fnm.value == ""
+  ctx.check(fn_ok, "Save:gzip-filename", PICKLE, g.lineno,
+            f"gzip.GzipFile(filename={src(fnm) if fnm is not None else '<absent>'}): "
+            "the header file name must be blanked (absent means fileobj.name)",
+            {"filename": src(fnm) if fnm is not None else None})
+  # 4. Serialize / SerializeAndSave: the value handed to Encode / Save is the
+  #    result of serialize_ast.SerializeAst (written inline or bound to a local)
+  for name, sink in (("Serialize", "Encode"), ("SerializeAndSave", "Save")):
+    f = mod.func(name)
+    sinks = [c for c in calls_in(f, name=sink)]
+    producers, ok = [], len(sinks) == 1 and bool(sinks[0].args) and \
+        not isinstance(sinks[0].args[0], ast.Starred)
+    if ok:
+      vals = _value_sources(mod, f, sinks[0].args[0], mod.enclosing_stmt(sinks[0]))
+      producers = [src(v) for v, _ in vals]
+      ok = all(isinstance(v, ast.Call) and dotted(v.func) == "serialize_ast.SerializeAst"
+               for v, _ in vals)
+    ok = ok and not [c for c in calls_in(f) if (dotted(c.func) or "").startswith("msgspec.")]
+    if name == "Serialize" and ok:
+      # ... and that encoding is what Serialize returns
+      rets = [n for n in walk_no_nested(f) if isinstance(n, ast.Return)]
+      ok = bool(rets) and all(
+          r.value is not None and all(v is sinks[0] for v, _ in
+                                      _value_sources(mod, f, r.value, r))
+          for r in rets)
+    ctx.check(ok, f"{name}:pipeline", PICKLE, f.lineno,
+              f"{name} must hand the result of serialize_ast.SerializeAst to {sink}",
+              {"producer": producers, "sink": [src(s_) for s_ in sinks]})
+  # 5. SerializeAst sorts both dependency lists (inline, through a local, or
+  #    in a helper of the module that returns them)
+  smod = get_module(ctx, SERIALIZE)
+  f = smod.func("SerializeAst")
+  ctor = [c for c in calls_in(f, name="SerializableAst")]
+  if len(ctor) != 1:
+    raise AnalysisError("SerializeAst: SerializableAst(...) call not found")
+  ctor = ctor[0]
+  fields = [n.target.id for n in smod.cls("SerializableAst").body
+            if isinstance(n, ast.AnnAssign) and isinstance(n.target, ast.Name)]
+  for fld in ("dependencies", "late_dependencies"):
+    if fld not in fields:
+      raise AnalysisError(f"SerializableAst has no field {fld}")
+    pos = fields.index(fld)
+    a = kwarg(ctor, fld)
+    if a is None and len(ctor.args) > pos and not any(
+        isinstance(x, ast.Starred) for x in ctor.args[:pos + 1]):
+      a = ctor.args[pos]
+    if a is None:
+      raise AnalysisError(f"SerializeAst: argument {fld} not found")
+    vals = _value_sources(smod, f, a, smod.enclosing_stmt(ctor))
+    ok = all(isinstance(v, ast.Call) and dotted(v.func) == "sorted"
+             and len(v.args) == 1 and not v.keywords for v, _ in vals)
+    shown = sorted({src(v) for v, _ in vals})
+    ctx.check(ok, f"SerializeAst:{fld}-sorted", SERIALIZE, a.lineno,
+              f"SerializableAst.{fld} is built from {', '.join(shown)}; the module list "
+              "must be sorted (it comes from a dict filled in visiting order)",
+              {"value": src(a), "resolved": shown})
+
+
 @rule("R4.4", "C04", floor=9)
 def r4_4(ctx):
   """Deterministic encoder, constant gzip header, sorted dependency lists."""
-  from rules._pytd_schema import serialisation_instances
-  serialisation_instances(ctx)
+  _serialisation_instances(ctx)
 
 
 # -- R4.5 ------------------------------------------------------------------------
@@ -1623,6 +1945,13 @@ def _total_key(call):
   return False
 
 
+def _sorted_total(mod, fn, expr, stmt):
+  """(ok, text): every value `expr` can have is sorted(..) with a total key."""
+  vals = _value_sources(mod, fn, expr, stmt)
+  ok = all(_plain_sorted(v) and _total_key(v) for v, _ in vals)
+  return ok, ", ".join(sorted({src(v) for v, _ in vals}))
+
+
 @rule("R4.5", "C04", floor=4)
 def r4_5(ctx):
   """The printer sorts import lines, import targets and TypeVar definitions."""
@@ -1631,44 +1960,44 @@ def r4_5(ctx):
   fn = mod.func("_TypingImports.to_import_statements")
   joins = [c for c in calls_in(fn) if isinstance(c.func, ast.Attribute)
            and c.func.attr == "join"]
-  if len(joins) != 1:
+  if len(joins) != 1 or len(joins[0].args) != 1:
     raise AnalysisError("_TypingImports.to_import_statements: expected one join")
-  a = joins[0].args[0]
-  ctx.check(_plain_sorted(a) and _total_key(a),
+  ok, shown = _sorted_total(mod, fn, joins[0].args[0], mod.enclosing_stmt(joins[0]))
+  ctx.check(ok,
             "_TypingImports.to_import_statements:targets", PRINTER, fn.lineno,
-            f"`from typing import ...` targets are joined from {src(a)}; they "
+            f"`from typing import ...` targets are joined from {shown}; they "
             "are collected in first-use order and must be sorted",
-            {"joined": src(a)})
+            {"joined": shown})
   # _Imports.to_import_statements
   fn = mod.func("_Imports.to_import_statements")
   rets = _single_return(fn, "imports")
   if len(rets) != 1:
     raise AnalysisError("_Imports.to_import_statements: expected one return")
-  v = rets[0].value
-  ctx.check(_plain_sorted(v) and _total_key(v),
+  ok, shown = _sorted_total(mod, fn, rets[0].value, rets[0])
+  ctx.check(ok,
             "_Imports.to_import_statements:lines", PRINTER, fn.lineno,
-            f"import lines are returned as {src(v)}; they must be sorted with "
+            f"import lines are returned as {shown}; they must be sorted with "
             "a total key (the line itself as the last key component)",
-            {"returned": src(v)})
+            {"returned": shown})
   joins = [c for c in calls_in(fn) if isinstance(c.func, ast.Attribute)
            and c.func.attr == "join"]
-  if len(joins) != 1:
+  if len(joins) != 1 or len(joins[0].args) != 1:
     raise AnalysisError("_Imports.to_import_statements: expected one join")
-  a = joins[0].args[0]
-  ctx.check(_plain_sorted(a) and _total_key(a),
+  ok, shown = _sorted_total(mod, fn, joins[0].args[0], mod.enclosing_stmt(joins[0]))
+  ctx.check(ok,
             "_Imports.to_import_statements:from-targets", PRINTER, fn.lineno,
-            f"`from m import ...` targets are joined from {src(a)}; must be "
-            "sorted", {"joined": src(a)})
+            f"`from m import ...` targets are joined from {shown}; must be "
+            "sorted", {"joined": shown})
   # _FormatTypeParams
   fn = mod.func("PrintVisitor._FormatTypeParams")
   rets = _single_return(fn, "type params")
   if len(rets) != 1:
     raise AnalysisError("_FormatTypeParams: expected one return")
-  v = rets[0].value
-  ctx.check(_plain_sorted(v) and _total_key(v),
+  ok, shown = _sorted_total(mod, fn, rets[0].value, rets[0])
+  ctx.check(ok,
             "_FormatTypeParams:lines", PRINTER, fn.lineno,
-            f"TypeVar definition lines are returned as {src(v)}; must be sorted",
-            {"returned": src(v)})
+            f"TypeVar definition lines are returned as {shown}; must be sorted",
+            {"returned": shown})
 
 
 # -- R4.6 ------------------------------------------------------------------------
@@ -2100,6 +2429,50 @@ _FORMSET_LOOP = ("      for compat, name in pep484.get_compat_items():\n"
                  "        if compat in type_list and name in type_list:\n"
                  "          del type_list[compat]\n")
 
+_FROM_TARGETS_JOIN = (
+    '      targets = ", ".join(\n          sorted(\n'
+    '              f"{name} as {alias}" if alias != name else name\n'
+    '              for alias, name in members.items()\n          )\n      )\n'
+    '      imports.append(f"from {module} import {targets}")\n')
+_SOLVE_LOOP = (
+    "      and_terms = []\n"
+    "      for var in self.variables:\n"
+    "        or_terms = []\n"
+    "        for value in assignments[var].copy():\n"
+    "          implication = self.implications[var][value].simplify(assignments)\n"
+    "          if implication is FALSE:\n"
+    "            # As an example of what kind of code triggers this,\n"
+    "            # see TestBoolEq.testFilter\n"
+    "            assignments[var].remove(value)\n"
+    "            something_changed = True\n"
+    "          else:\n"
+    "            or_terms.append(implication)\n"
+    "          self.implications[var][value] = implication\n"
+    "        and_terms.append(Or(or_terms))\n"
+    "      d = And(and_terms)\n")
+_SOLVE_HELPER = (
+    "  def _simplify_implications(self, assignments):\n"
+    "    value_removed = False\n"
+    "    and_terms = []\n"
+    "    for var in self.variables:\n"
+    "      or_terms = []\n"
+    "      for value in assignments[var].copy():\n"
+    "        implication = self.implications[var][value].simplify(assignments)\n"
+    "        if implication is FALSE:\n"
+    "          assignments[var].remove(value)\n"
+    "          value_removed = True\n"
+    "        else:\n"
+    "          or_terms.append(implication)\n"
+    "        self.implications[var][value] = implication\n"
+    "      and_terms.append(Or(or_terms))\n"
+    "    return And(and_terms), value_removed\n\n")
+_SOLVE_SPLIT = [
+    ("pytype/pytd/booleq.py", "  def solve(self):\n    \"\"\"Solve the system of equations.",
+     _SOLVE_HELPER + "  def solve(self):\n    \"\"\"Solve the system of equations."),
+    ("pytype/pytd/booleq.py", "      something_changed = False\n\n" + _SOLVE_LOOP,
+     "      d, something_changed = self._simplify_implications(assignments)\n"),
+]
+
 VARIANTS = [
     # -- R4.1 ---------------------------------------------------------------
     {"name": "drop-CanonicalOrdering", "rule": "R4.1", "file": IO, "expect": "fire",
@@ -2222,6 +2595,55 @@ VARIANTS = [
      "file": "pytype/pytd/serialize_ast.py", "expect": "silent",
      "old": "      sorted(dependencies.items()),\n      sorted(late_dependencies.items()),",
      "new": "      late_dependencies=sorted(late_dependencies.items()),\n      dependencies=sorted(dependencies.items()),"},
+    # R4.4 on refactored shapes
+    {"name": "twin-benign-C12-r2-serializeast-split", "rule": "R4.4", "patch": "benign/C12-r2/patch.diff", "expect": "silent"},
+    {"name": "twin-benign-C12-r4-temporaries-inlined", "rule": "R4.4", "patch": "benign/C12-r4/patch.diff", "expect": "silent"},
+    {"name": "twin-dependency-list-hoisted-into-local", "rule": "R4.4", "file": "pytype/pytd/serialize_ast.py",
+     "expect": "silent",
+     "edits": [("pytype/pytd/serialize_ast.py", "  metadata = metadata or []\n\n  return SerializableAst(\n      ast,\n      sorted(dependencies.items()),",
+                "  metadata = metadata or []\n  dep_list = sorted(dependencies.items())\n\n  return SerializableAst(\n      ast,\n      dep_list,")]},
+    {"name": "hoisted-dependency-list-unsorted", "rule": "R4.4", "expect": "fire",
+     "edits": [("pytype/pytd/serialize_ast.py", "  metadata = metadata or []\n\n  return SerializableAst(\n      ast,\n      sorted(dependencies.items()),",
+                "  metadata = metadata or []\n  dep_list = list(dependencies.items())\n\n  return SerializableAst(\n      ast,\n      dep_list,")]},
+    {"name": "hoisted-dependency-list-sorted-on-one-path-only", "rule": "R4.4", "expect": "fire",
+     "edits": [("pytype/pytd/serialize_ast.py", "  metadata = metadata or []\n\n  return SerializableAst(\n      ast,\n      sorted(dependencies.items()),",
+                "  metadata = metadata or []\n  dep_list = sorted(dependencies.items())\n  if src_path:\n    dep_list = list(dependencies.items())\n\n  return SerializableAst(\n      ast,\n      dep_list,")]},
+    {"name": "hoisted-dependency-list-changed-in-place", "rule": "R4.4", "expect": "error",
+     "edits": [("pytype/pytd/serialize_ast.py", "  metadata = metadata or []\n\n  return SerializableAst(\n      ast,\n      sorted(dependencies.items()),",
+                "  metadata = metadata or []\n  dep_list = sorted(dependencies.items())\n  dep_list.extend(late_dependencies.items())\n\n  return SerializableAst(\n      ast,\n      dep_list,")]},
+    {"name": "twin-dependency-lists-from-helper-tuple", "rule": "R4.4", "expect": "silent",
+     "edits": [("pytype/pytd/serialize_ast.py", "def SerializeAst(ast, src_path=None, metadata=None) -> SerializableAst:",
+                "def _SortedDeps(deps):\n  return (\n      sorted(deps.dependencies.items()),\n      sorted(deps.late_dependencies.items()),\n  )\n\n\ndef SerializeAst(ast, src_path=None, metadata=None) -> SerializableAst:"),
+               ("pytype/pytd/serialize_ast.py", "  dependencies = deps.dependencies\n  late_dependencies = deps.late_dependencies\n",
+                "  dependencies, late_dependencies = _SortedDeps(deps)\n"),
+               ("pytype/pytd/serialize_ast.py", "      sorted(dependencies.items()),\n      sorted(late_dependencies.items()),\n",
+                "      dependencies,\n      late_dependencies,\n")]},
+    {"name": "helper-tuple-second-list-unsorted", "rule": "R4.4", "expect": "fire",
+     "edits": [("pytype/pytd/serialize_ast.py", "def SerializeAst(ast, src_path=None, metadata=None) -> SerializableAst:",
+                "def _SortedDeps(deps):\n  return (\n      sorted(deps.dependencies.items()),\n      list(deps.late_dependencies.items()),\n  )\n\n\ndef SerializeAst(ast, src_path=None, metadata=None) -> SerializableAst:"),
+               ("pytype/pytd/serialize_ast.py", "  dependencies = deps.dependencies\n  late_dependencies = deps.late_dependencies\n",
+                "  dependencies, late_dependencies = _SortedDeps(deps)\n"),
+               ("pytype/pytd/serialize_ast.py", "      sorted(dependencies.items()),\n      sorted(late_dependencies.items()),\n",
+                "      dependencies,\n      late_dependencies,\n")]},
+    {"name": "helper-tuple-lists-swapped-unsorted-first", "rule": "R4.4", "expect": "fire",
+     "edits": [("pytype/pytd/serialize_ast.py", "def SerializeAst(ast, src_path=None, metadata=None) -> SerializableAst:",
+                "def _SortedDeps(deps):\n  if not deps.dependencies:\n    return [], sorted(deps.late_dependencies.items())\n  return (\n      list(deps.dependencies.items()),\n      sorted(deps.late_dependencies.items()),\n  )\n\n\ndef SerializeAst(ast, src_path=None, metadata=None) -> SerializableAst:"),
+               ("pytype/pytd/serialize_ast.py", "  dependencies = deps.dependencies\n  late_dependencies = deps.late_dependencies\n",
+                "  dependencies, late_dependencies = _SortedDeps(deps)\n"),
+               ("pytype/pytd/serialize_ast.py", "      sorted(dependencies.items()),\n      sorted(late_dependencies.items()),\n",
+                "      dependencies,\n      late_dependencies,\n")]},
+    {"name": "twin-serialize-inlined-temporary", "rule": "R4.4", "file": "pytype/imports/pickle_utils.py", "expect": "silent",
+     "old": "  out = serialize_ast.SerializeAst(ast, src_path, metadata)\n  return Encode(out)\n",
+     "new": "  return Encode(serialize_ast.SerializeAst(ast, src_path, metadata))\n"},
+    {"name": "serialize-encodes-only-the-ast-field", "rule": "R4.4", "file": "pytype/imports/pickle_utils.py", "expect": "fire",
+     "old": "  out = serialize_ast.SerializeAst(ast, src_path, metadata)\n  return Encode(out)\n",
+     "new": "  return Encode(serialize_ast.SerializeAst(ast, src_path, metadata).ast)\n"},
+    {"name": "serialize-returns-msgspec-encoding-of-temporary", "rule": "R4.4", "file": "pytype/imports/pickle_utils.py", "expect": "fire",
+     "old": "  out = serialize_ast.SerializeAst(ast, src_path, metadata)\n  return Encode(out)\n",
+     "new": "  out = serialize_ast.SerializeAst(ast, src_path, metadata)\n  Encode(out)\n  return msgspec.msgpack.encode(out)\n"},
+    {"name": "save-receives-unserialised-ast", "rule": "R4.4", "file": "pytype/imports/pickle_utils.py", "expect": "fire",
+     "old": "  out = serialize_ast.SerializeAst(ast, src_path, metadata)\n  Save(out, filename, compress, open_function)\n",
+     "new": "  Save(ast, filename, compress, open_function)\n"},
     # -- R4.5 ---------------------------------------------------------------
     {"name": "typevars-unsorted", "rule": "R4.5", "file": PRINTER, "expect": "fire",
      "old": "    return sorted(formatted_type_params)", "new": "    return formatted_type_params"},
@@ -2236,7 +2658,36 @@ VARIANTS = [
     {"name": "twin-rename-import-key-param", "rule": "R4.5", "file": PRINTER, "expect": "silent",
      "old": "    return sorted(imports, key=lambda s: (s.startswith(\"from \"), s))",
      "new": "    return sorted(imports, key=lambda line: (line.startswith(\"from \"), line))"},
+    {"name": "twin-benign-C05-r2-comprehension-sorted-moved", "rule": "R4.5", "patch": "benign/C05-r2/patch.diff", "expect": "silent"},
+    {"name": "twin-from-targets-sorted-into-local", "rule": "R4.5", "file": PRINTER, "expect": "silent",
+     "old": _FROM_TARGETS_JOIN,
+     "new": "      targets = sorted(\n          name if alias == name else f\"{name} as {alias}\"\n          for alias, name in members.items()\n      )\n      imports.append(f\"from {module} import {', '.join(targets)}\")\n"},
+    {"name": "from-targets-local-not-sorted", "rule": "R4.5", "file": PRINTER, "expect": "fire",
+     "old": _FROM_TARGETS_JOIN,
+     "new": "      targets = [\n          name if alias == name else f\"{name} as {alias}\"\n          for alias, name in members.items()\n      ]\n      imports.append(f\"from {module} import {', '.join(targets)}\")\n"},
+    {"name": "from-targets-sorted-local-then-extended", "rule": "R4.5", "file": PRINTER, "expect": "error",
+     "old": _FROM_TARGETS_JOIN,
+     "new": "      targets = sorted(\n          name if alias == name else f\"{name} as {alias}\"\n          for alias, name in members.items()\n      )\n      targets.append(\"*\")\n      imports.append(f\"from {module} import {', '.join(targets)}\")\n"},
+    {"name": "import-lines-hoisted-unsorted", "rule": "R4.5", "file": PRINTER, "expect": "fire",
+     "old": "    return sorted(imports, key=lambda s: (s.startswith(\"from \"), s))",
+     "new": "    lines = list(imports)\n    return lines"},
+    {"name": "twin-import-lines-hoisted-sorted", "rule": "R4.5", "file": PRINTER, "expect": "silent",
+     "old": "    return sorted(imports, key=lambda s: (s.startswith(\"from \"), s))",
+     "new": "    lines = sorted(imports, key=lambda s: (s.startswith(\"from \"), s))\n    return lines"},
     # -- R4.6 ---------------------------------------------------------------
+    # R4.6: a triaged walk moved into a private helper of the triaged function
+    {"name": "twin-benign-C17-r3-solve-split", "rule": "R4.6", "patch": "benign/C17-r3/patch.diff", "expect": "silent"},
+    {"name": "twin-triaged-loop-moved-into-private-helper", "rule": "R4.6", "expect": "silent",
+     "edits": _SOLVE_SPLIT},
+    {"name": "moved-loop-plus-a-second-walk-in-the-helper", "rule": "R4.6", "expect": "fire",
+     "edits": _SOLVE_SPLIT + [("pytype/pytd/booleq.py", "    value_removed = False\n    and_terms = []\n",
+                               "    value_removed = False\n    and_terms = []\n    order = []\n    for v in self.variables:\n      order.append(v)\n")]},
+    {"name": "moved-loop-helper-also-called-from-untriaged-method", "rule": "R4.6", "expect": "fire",
+     "edits": _SOLVE_SPLIT + [("pytype/pytd/booleq.py", "  def _get_nonfalse_values(self, var):",
+                               "  def first_terms(self):\n    return self._simplify_implications({v: set() for v in sorted(self.variables)})\n\n  def _get_nonfalse_values(self, var):")]},
+    {"name": "moved-loop-into-public-method", "rule": "R4.6", "expect": "fire",
+     "edits": [(f, o.replace("_simplify_implications", "simplify_implications"), n.replace("_simplify_implications", "simplify_implications"))
+               for f, o, n in _SOLVE_SPLIT]},
     {"name": "merge_classes-walks-set", "rule": "R4.6", "file": "pytype/convert.py",
      "expect": "fire",
      "old": "    return self.merge_values(sorted(classes, key=lambda cls: cls.full_name))",
